@@ -77,6 +77,20 @@ func runCheck(ld *Loaded, db *SpecDB, work string, t0 time.Time) int {
 	agree := *flagTier == "thorough"
 	tSolve := time.Now()
 	batchDischarge(all, work, *flagTimeout, agree, numWorkers())
+	// solver gave up (no model, no proof): one patient retry before the verdict, so that a
+	// loaded machine does not turn a slow proof into an alarm
+	for _, ob := range all {
+		if ob.Status == "unknown" && ob.Expect == "unsat" && ob.File != "" {
+			if _, err := os.Stat(ob.File); err == nil {
+				r, _ := solve(ob.File, 4**flagTimeout, false)
+				if r.verdict == "unsat" {
+					ob.Status, ob.Backend = "discharged", r.backend+"(retry)"
+				} else if r.verdict == "sat" {
+					ob.Status, ob.Backend, ob.Model = "failed", r.backend+"(retry)", r.output
+				}
+			}
+		}
+	}
 	solveS := time.Since(tSolve).Seconds()
 
 	// group by name
@@ -485,6 +499,24 @@ func writeEvidence(ld *Loaded, db *SpecDB, reports []*FuncReport, prop string, t
 	level := "proof"
 	if discharged < total || total == 0 {
 		level = "other"
+	}
+	// never report a stronger level than the one claimed for the property in MANIFEST.json
+	if data, err := os.ReadFile("/verif/MANIFEST.json"); err == nil {
+		var mf struct {
+			Checks []struct {
+				PropertyID string `json:"property_id"`
+				Level      struct {
+					Category string `json:"category"`
+				} `json:"level_claimed"`
+			} `json:"checks"`
+		}
+		if json.Unmarshal(data, &mf) == nil {
+			for _, c := range mf.Checks {
+				if c.PropertyID == prop && c.Level.Category != "proof" && c.Level.Category != "" {
+					level = c.Level.Category
+				}
+			}
+		}
 	}
 	cov := map[string]interface{}{
 		"obligations":              total,
